@@ -41,6 +41,8 @@ pub fn op_strategy() -> BoxedStrategy<Op> {
 		1 => any::<u16>().prop_map(|s| Op::FinalizeInvoice { s }),
 		3 => (any::<u16>(), any::<bool>(), args()).prop_map(|(w, other_acct, args)| Op::SelfSend { w, other_acct, args }),
 		2 => any::<u16>().prop_map(|w| Op::Restart { w }),
+		3 => any::<u16>().prop_map(|w| Op::ZeroConfRelay { w }),
+		2 => any::<u16>().prop_map(|s| Op::FinalizeTampered { s }),
 	]
 	.boxed()
 }
@@ -60,6 +62,9 @@ impl C04 {
 			base::build(&d, &BaseSpec::standard(v)).expect("base world");
 			bases.push(d);
 		}
+		let d = args.scratch.join("c04.base3");
+		base::build(&d, &BaseSpec::balanced()).expect("base world");
+		bases.push(d);
 		C04 {
 			scratch: args.scratch.clone(),
 			bases,
@@ -211,7 +216,7 @@ impl Prop for C04 {
 	}
 	fn strategy(&self, tier: Tier) -> BoxedStrategy<Case> {
 		let n = tier.pick(30usize, 44usize);
-		(0u8..3, prop::collection::vec(op_strategy(), 8..n))
+		(0u8..4, prop::collection::vec(op_strategy(), 8..n))
 			.prop_map(|(base, ops)| Case { base, ops })
 			.boxed()
 	}
@@ -224,7 +229,7 @@ impl Prop for C04 {
 	fn assumptions(&self) -> Vec<String> {
 		vec![
 			"domain of the statement: a cancelled transaction is never mined, no forks, one wallet per seed".into(),
-			"sends use minimum_confirmations >= 1 and no TTL (spending unconfirmed outputs reserves outputs that are not on chain by design; TTL expiry is C17)".into(),
+			"generated sends use minimum_confirmations >= 1 and no TTL (spending unconfirmed outputs reserves outputs that are not on chain by design; TTL expiry is C17); spending an unconfirmed receive with minimum_confirmations = 0 is exercised by the ZeroConfRelay op, which mines both transactions before anyone refreshes".into(),
 			"finalize / cancel are issued with the account that initiated the transaction active (as a CLI user passing -a does)".into(),
 			"an output's account is the account its creating operation addressed (active account), not its key path".into(),
 		]
